@@ -19,7 +19,9 @@ def pin_case(draw):
     if name == 'expcone':
         z = draw(st.sampled_from([0.5, 1.0, 2.0, 8.0, 20.0]))       # large scales: the cut-off rows are relative to z
         e = draw(st.sampled_from(GRID))
-        return {'mode': 'pin', 'atom': 'expcone', 'z': z, 'x': e * z, 'degree': degree, 'solver': solver,
+        # user-supplied cut-off values that contain the exponent (default (-30, 60); asymmetric and tight ones)
+        cuts = draw(st.sampled_from([None, None, [-30, 60], [-6, 12], [-(max(-e, 0.0) + 0.5), max(e, 0.0) + 2.0], [-(max(-e, 0.0) + 1.0), 9.0]]))
+        return {'mode': 'pin', 'atom': 'expcone', 'z': z, 'x': e * z, 'degree': degree, 'solver': solver, 'cuts': cuts,
                 'pos': draw(st.integers(0, 2)), 'front': draw(st.sampled_from(['ro', 'dro']))}
     k = 1 if detmodel.ATOMS[name][1] == 'elem' else draw(st.integers(2, 3))
     expo = [draw(st.sampled_from(GRID)) for _ in range(k)]
@@ -215,15 +217,35 @@ class C18(Prop):
                 return Outcome.fail('prefix', 'to_socp(): ' + msg, labels)
             if len(f.qmat) != nq or len(f.xmat) != nx:
                 return Outcome.fail('mutated_formula', 'to_socp() changed the cached formula (%d->%d cones, %d->%d exp cones)' % (nq, len(f.qmat), nx, len(f.xmat)), labels)
+            kw = {}
+            if case.get('cuts'):
+                kw['cuts'] = tuple(case['cuts'])
+                labels.append('cuts:user')
             try:
                 with quiet():
-                    m.soc_solve(solver, degree=deg, display=False, params=solver_params(case))
+                    m.soc_solve(solver, degree=deg, display=False, params=solver_params(case), **kw)
             except Exception as ex:
                 if 'size-limited' in str(ex):
                     return Outcome.skip('gurobi_size_limit', labels)
                 raise
             sol = m.solution
             if sol is None or sol.x is None or np.isnan(sol.objval) or 'lose' in str(sol.status):
+                if case.get('cuts'):
+                    # the pinned exponent lies inside the user's cut-off range, so the approximating program is feasible: two
+                    # interfaces calling it infeasible is a verdict on the program, not a solver failure
+                    from rsome import eco_solver, grb_solver
+                    verdicts = []
+                    with quiet():
+                        g2 = m.do_math().to_socp(deg, tuple(case['cuts']))
+                        for sv in (eco_solver, grb_solver):
+                            try:
+                                s2 = sv.solve(g2, display=False)
+                                verdicts.append(str(getattr(s2, 'status', None)))
+                            except Exception as ex:      # noqa
+                                verdicts.append('error')
+                    if 'nfeasible' in verdicts[0] and verdicts[1] in ('3', '4'):
+                        return Outcome.fail('cuts:infeasible', 'soc_solve(cuts=%r) with the exponent %g inside the cut-off range: ECOS and Gurobi both report '
+                                            'the approximating program infeasible' % (tuple(case['cuts']), case['x'] / case['z']), labels)
                 return Outcome.skip('soc_not_solved', labels)
             val = m.get()
             from vf.props.c11 import check_formula
